@@ -2003,7 +2003,8 @@ func TestVfC17Scenarios(t *testing.T) {
 		vfC17ScenPoolRefilled(1), vfC17ScenPoolRefilled(2), vfC17ScenPoolRefilled(3),
 		vfC17ScenEvStopVsFlush, vfC17ScenCloseVsEventFlush, vfC17ScenCloseDuringSlowHandler,
 		vfC17ScenPoolReplenished("refill-fails", 2), vfC17ScenPoolReplenished("refill-fails", 3),
-		vfC17ScenPoolReplenished("loss-during-fill", 3)}
+		vfC17ScenPoolReplenished("loss-during-fill", 3),
+		vfC17ScenCloseDuringControlHeartbeat("options-in-flight"), vfC17ScenCloseDuringControlHeartbeat("reconnect-setup-pending")}
 	results := make([]vfC17ScenResult, len(fs))
 	var wg sync.WaitGroup
 	for i, f := range fs {
